@@ -7,6 +7,7 @@ import (
 	"os"
 	"os/exec"
 	"path/filepath"
+	"regexp"
 	"sort"
 	"strconv"
 	"strings"
@@ -283,7 +284,7 @@ func cmdCheck(args []string) {
 	isKnown := func(name string) *KnownFinding {
 		for i := range known.Findings {
 			k := &known.Findings[i]
-			if k.Property == prop && k.Obligation == name && k.Status != "fixed" {
+			if k.Property == prop && canonObl(k.Obligation) == canonObl(name) && k.Status != "fixed" {
 				return k
 			}
 		}
@@ -389,6 +390,12 @@ func cmdCheck(args []string) {
 		os.Exit(1)
 	}
 }
+
+// canonObl drops the running numbers from an obligation name ("f/post#38:label.2" -> "f/post:label"), so that a
+// known finding is identified by function, kind and label, not by the count of obligations generated before it.
+var canonRe = regexp.MustCompile("#[0-9]+|[.][0-9]+$")
+
+func canonObl(n string) string { return canonRe.ReplaceAllString(n, "") }
 
 func loadExpected(path string) map[string]int {
 	m := map[string]int{}
